@@ -42,7 +42,9 @@ WB_NONE == -1  WB_CRLF == 0  WB_LF == 1  WB_CMD == 2  WB_EV == 3
 WPH_BEFORE == 0  WPH_MAIN == 1  WPH_AFTER == 2
 
 \* ---- descriptor access (commands are numbered from 0 as in the traces)
-NCmds(cfg) == Len(cfg.cmds)
+\* commands of the registered table.  A recorded configuration may carry further command descriptors after them ("ntab" given):
+\* commands that are not registered but are passed to cat_trigger_unsolicited_event (the API accepts any descriptor)
+NCmds(cfg) == IF "ntab" \in DOMAIN cfg THEN cfg.ntab ELSE Len(cfg.cmds)
 CmdOf(cfg, c) == cfg.cmds[c + 1]
 NVars(cfg, c) == Len(CmdOf(cfg, c).vars)
 VarOf(cfg, c, i) == CmdOf(cfg, c).vars[i + 1]
@@ -60,7 +62,7 @@ InitS(cfg) ==
    head |-> 0, tail |-> 0, cnt |-> 0, ring |-> [i \in 1..cfg.qcap |-> <<-1, 0>>],
    match |-> [i \in 1..NCmds(cfg) |-> 0], abuf |-> <<>>, ubuf |-> <<>>, inoff |-> 0]
 
-InitMem(cfg) == [c \in 1..NCmds(cfg) |-> [i \in 1..Len(cfg.cmds[c].vars) |-> cfg.cmds[c].vars[i].mem]]
+InitMem(cfg) == [c \in 1..Len(cfg.cmds) |-> [i \in 1..Len(cfg.cmds[c].vars) |-> cfg.cmds[c].vars[i].mem]]
 
 \* ---- context plumbing
 Ctx(S, mem, cfg, ans) == [s |-> S, mem |-> mem, cfg |-> cfg, obs |-> <<>>, ans |-> ans]
@@ -168,6 +170,9 @@ SetMem(mem, c, v, val) == [mem EXCEPT ![c + 1][v + 1] = val]
 SetFlag(cfg, e) == IF e.t = "group" THEN [cfg EXCEPT !.groups[e.i + 1].disable = e.val]
                    ELSE IF e.fl = "disable" THEN [cfg EXCEPT !.cmds[e.i + 1].disable = e.val]
                    ELSE [cfg EXCEPT !.cmds[e.i + 1].only_test = e.val]
+
+\* the program renamed a command group (the descriptor is the program's own memory)
+SetGroupName(cfg, e) == [cfg EXCEPT !.groups[e.i + 1].name = e.name, !.groups[e.i + 1].hasname = e.hasname]
 
 RECURSIVE ApplyIn(_, _)
 \* result: [x, ok]
